@@ -261,7 +261,12 @@ impl EventGen for GroupElement {
             events.push(OutputEvent::Start(new_el));
 
             if let Some(inner_events) = self.0.inner_events(context) {
-                let (ev_list, bb) = process_events(inner_events, context)?;
+                let inner_result = process_events(inner_events, context);
+                if inner_result.is_err() {
+                    // this element may be retried later; don't leave its scope behind
+                    context.pop_element();
+                }
+                let (ev_list, bb) = inner_result?;
                 content_bb = bb;
                 events.extend(&ev_list);
             }
